@@ -156,7 +156,63 @@ class Prover:
         self.meta[name] = {'contract': c, 'hyps': list(hyps), 'goal': goal, 'st': st, 'meta': meta or {}, 'function': function}
         self.jobs.append((name, solve.to_smt2(list(hyps), goal), strings))
 
+    # ---- heavy contracts: generate their VCs in a forked child while the parent goes on -------------
+    def start_child(self, make_contract, prepare=None):
+        """fork a child that runs one contract and sends back its jobs as SMT-LIB text (z3 terms do not pickle)"""
+        import multiprocessing as mp
+        ctx = mp.get_context('fork')
+        parent, child = ctx.Pipe(False)
+
+        def work(conn):
+            try:
+                from ..report import Report
+                rep = Report(self.prop, self.report.level)
+                sub = Prover(rep, self.it, self.prop)
+                if prepare is not None:
+                    prepare(self.it)
+                sub.run_contract(make_contract())
+                trivial = [n for n, m in sub.meta.items() if m.get('trivial')]
+                metas = {n: {'function': m.get('function') or m['contract'].qualname, 'witness': (m.get('meta') or {}).get('witness', 'counter-model')} for n, m in sub.meta.items()}
+                conn.send({'jobs': sub.jobs, 'trivial': trivial, 'metas': metas, 'functions': rep.functions,
+                           'obligations': rep.obligations, 'errors': rep.errors, 'paths': sub.n_paths})
+            except Exception as e:      # noqa
+                import traceback
+                conn.send({'crash': repr(e) + traceback.format_exc()[-1500:]})
+            finally:
+                conn.close()
+        pr = ctx.Process(target=work, args=(child,))
+        pr.start()
+        child.close()
+        self._children = getattr(self, '_children', []) + [(pr, parent)]
+
+    def join_children(self):
+        for pr, conn in getattr(self, '_children', []):
+            try:
+                msg = conn.recv()
+            except EOFError:
+                msg = {'crash': 'child ended without result'}
+            pr.join()
+            if 'crash' in msg:
+                self.report.error('child VC generation crashed: ' + msg['crash'])
+                continue
+            for q, info in msg['functions'].items():
+                self.report.add_function(q, info)
+            for o in msg['obligations']:          # undecided vcgen entries recorded by the child
+                self.report.add_obligation(o['name'], o['function'], o['status'], o['backend'], o['seconds'], o.get('detail'))
+            for e in msg['errors']:
+                self.report.error(e)
+            self.n_paths += msg['paths']
+            for name in msg['trivial']:
+                self.meta[name] = {'contract': Contract(), 'hyps': [], 'goal': z3.BoolVal(True), 'st': None, 'meta': {'witness': msg['metas'][name]['witness']},
+                                   'function': msg['metas'][name]['function'], 'trivial': True}
+            for (name, text, strings) in msg['jobs']:
+                self.meta[name] = {'contract': Contract(), 'hyps': [], 'goal': z3.BoolVal(True), 'st': None, 'meta': {'witness': msg['metas'][name]['witness']},
+                                   'function': msg['metas'][name]['function'], 'from_child': True}
+                self.jobs.append((name, text, strings))
+        self._children = []
+
     def discharge(self, nproc=16):
+        self.join_children()
         res = solve.discharge_all(self.jobs, nproc=nproc)
         refuted = []
         for name, m in self.meta.items():
@@ -167,7 +223,7 @@ class Prover:
                 continue
             st, be, dt, model, why = res[name]
             smt = None
-            if st == 'proved' and len(self.report.samples) < 3:
+            if st == 'proved' and len(self.report.samples) < 3 and not m.get('from_child'):
                 smt = solve.to_smt2(m['hyps'], m['goal'])
             self.report.add_obligation(name, fn, st, be, dt, detail=(why or None) if st != 'proved' else None, smt=smt)
             if st == 'refuted':
@@ -177,6 +233,8 @@ class Prover:
     def counter_values(self, m):
         """Re-solve in-process to obtain concrete values for the contract's declared inputs."""
         c = m['contract']
+        if m.get('from_child'):
+            return None, None
         try:
             ins = c.inputs(m['st']) if m['st'] is not None else {}
         except Exception:
